@@ -333,6 +333,34 @@ pub fn run() -> Report {
     for p in parts {
         rep.merge(p);
     }
+    // scale: more than 65535 blocks of the active chain in ONE blk file (what a real blk00000.dat looks like), the rest in a second one
+    {
+        let nblk: usize = 70_000;
+        let big = uniform_chain(nblk);
+        let mut world = refmodel::world::World::new(btc);
+        for (h, b) in big.blocks.iter().enumerate() {
+            world.add_block(if h < 68_000 { 0 } else { 1 }, h as u64, b);
+        }
+        let wk = Worker::new(&root, 950);
+        let mut spec = RunSpec::new("bitcoin", "csvdump");
+        spec.env.push(("VERIF_RUN_TIMEOUT".into(), "600".into()));
+        match wk.world_run(&world, &spec) {
+            Err(m) => rep.machinery(m),
+            Ok(r) => {
+                rep.states += 1;
+                rep.transitions += 1;
+                rep.count("blocks-in-one-file-70000", 1);
+                rep.nontrivial.insert(h8(b"70000-blocks"));
+                let (s0, e0) = (r.declared_start().unwrap_or(0), r.declared_end().unwrap_or(nblk as u64 - 1));
+                let bad = check_csvdump(&r, btc, &in_range(&big.mblocks(), s0, e0), s0, e0);
+                if e0 != nblk as u64 - 1 {
+                    rep.disagree("many-blocks-per-file:range-not-whole-chain", format!("declared {}..{} of 0..{}", s0, e0, nblk - 1), json!({"kind": "e1-described", "layout": "68000 blocks in blk00000.dat, 2000 in blk00001.dat"}));
+                } else if let Some((sig, detail)) = bad.into_iter().next() {
+                    rep.disagree(&format!("many-blocks-per-file:{}", sig), detail.chars().take(400).collect(), json!({"kind": "e1-described", "layout": "68000 blocks in blk00000.dat, 2000 in blk00001.dat"}));
+                }
+            }
+        }
+    }
     if rep.outcomes.len() > 1 && rep.disagreements.is_empty() {
         rep.machinery("outputs differ between layouts although each equals the model".into());
     }
